@@ -10,6 +10,10 @@ Lemma gen_match_patterns_shape :
   gen_match_doseq_retries = true.
 Proof. repeat split. Qed.
 
+(* the create-and-retry of doSeq is guarded: a second search that finds nothing is an error *)
+Lemma gen_match_doseq_is_guarded : gen_match_doseq_guarded = true.
+Proof. reflexivity. Qed.
+
 Lemma elem_regex_text parse v :
   elem_regex parse v = match parse v with Some r => Ok r | None => Err end.
 Proof.
@@ -25,30 +29,51 @@ Proof.
   rewrite (H e (or_introl eq_refl)). cbn. rewrite IH; auto. intros x Hx; apply H; right; auto.
 Qed.
 
-(* ---------- doSeq with Create does not terminate when the new entry is not matched ---------- *)
-Lemma retry_diverges visit new_elem :
+(* ---------- doSeq with Create: an appended entry that is not matched is an error (it used to hang) ---------- *)
+Lemma retry_unmatched_is_error visit new_elem :
   visit new_elem = Ok (new_elem, []) ->
   forall f es, (forall e, In e es -> visit e = Ok (e, [])) ->
-  retry_loop visit new_elem true f es = Diverge.
+  retry_loop visit new_elem true false (S (S f)) es = Err.
 Proof.
-  intros Hn. induction f as [|f IH]; intros es H; cbn; auto.
-  rewrite visit_elems_nohit; auto. cbn. apply IH.
-  intros e He. apply in_app_or in He. destruct He as [He|[<-|[]]]; auto.
+  intros Hn f es H. cbn [retry_loop].
+  rewrite visit_elems_nohit; auto. cbn.
+  rewrite visit_elems_nohit.
+  - cbn; try rewrite gen_match_doseq_is_guarded; reflexivity.
+  - intros e He. apply in_app_or in He. destruct He as [He|[<-|[]]]; auto.
 Qed.
 
-(* the witness of DESIGN F6: target path spec.containers.[name=^zz$].image, Create, on a pod *)
+(* the retry never runs out of fuel: two searches at most *)
+Lemma retry_total visit new_elem cr app f es :
+  (forall e, visit e <> Diverge) ->
+  retry_loop visit new_elem cr app (S (S f)) es <> Diverge.
+Proof.
+  intros Hv. cbn [retry_loop].
+  assert (T : forall l i, visit_elems visit i l <> Diverge).
+  { induction l as [|e t IHl]; intros i; cbn; [discriminate|].
+    specialize (Hv e). destruct (visit e) as [[e1 h1]| | |]; cbn; try discriminate; [|congruence].
+    specialize (IHl (S i)). destruct (visit_elems visit (S i) t) as [[t1 h2]| | |]; cbn; try discriminate. congruence. }
+  pose proof (T es 0) as T1.
+  destruct (visit_elems visit 0 es) as [[es1 h1]| | |]; cbn; try discriminate; [|congruence].
+  destruct h1; [|discriminate]. destruct cr; [|discriminate].
+  try rewrite gen_match_doseq_is_guarded. destruct app; cbn; [discriminate|].
+  pose proof (T (es1 ++ [new_elem])%list 0) as T2.
+  destruct (visit_elems visit 0 (es1 ++ [new_elem])%list) as [[es2 h2]| | |]; cbn; try discriminate; [|congruence].
+  destruct h2; discriminate.
+Qed.
+
+(* regression witness of the repaired hang (DESIGN F6): target path spec.containers.[name=^zz$].image, Create, on a pod *)
 Definition zz_parse : string -> option re := parse_of [("^zz$", Some (cat_of_list [Bol; lit "zz"; Eol]))].
 Definition zz_path : list string := ["spec"; "containers"; "[name=^zz$]"; "image"].
 Definition zz_doc : node :=
   Map [("spec", Map [("containers", Seq [Map [("name", Scalar TStr SPlain "x");
                                               ("image", Scalar TStr SPlain "i")]])])].
 
-Lemma match_diverges_lemma :
-  forall fuel, pm zz_parse node_value (fun _ => false) (Some KScalar) fuel zz_path zz_doc = Diverge.
+Lemma match_unmatched_create_is_error :
+  forall fuel, pm zz_parse node_value (fun _ => false) (Some KScalar) (S (S fuel)) zz_path zz_doc = Err.
 Proof.
   intros fuel. unfold zz_path, zz_doc.
   cbn -[retry_loop zz_parse].
-  rewrite retry_diverges; auto.
+  rewrite retry_unmatched_is_error; auto.
   intros e [<-|[]]. vm_compute. reflexivity.
 Qed.
 
